@@ -62,6 +62,19 @@ fn generate_mask(regs: &[&AllocatedRegister]) -> (VirtualImmediate24, VirtualImm
 
 impl AllocatedAbstractInstructionSet {
     pub(crate) fn optimize(self) -> AllocatedAbstractInstructionSet {
+        // Verification hook H3: run only the sub-passes named in the environment.
+        #[cfg(fuellabs_sway_verif)]
+        if let Ok(sel) = std::env::var("SWAY_VERIF_ASM_OPTS") {
+            let on = |name: &str| sel.split(',').any(|s| s.trim() == name);
+            let mut this = self;
+            if on("alloc_remove_redundant_sp_move") {
+                this = this.remove_redundant_sp_move_to_locbase();
+            }
+            if on("alloc_remove_redundant_ops") {
+                this = this.remove_redundant_ops();
+            }
+            return this;
+        }
         self.remove_redundant_sp_move_to_locbase()
             .remove_redundant_ops()
     }
